@@ -26,7 +26,7 @@ type c14Step struct {
 }
 
 type c14Case struct {
-	Env   int       `json:"env,omitempty"` // environment of all cached runs: 0 XDG_CACHE_HOME, 1 HOME only, 2 no usable cache directory, 3 relative cache path, other locale and time zone, 4 a cache directory so deep that no entry file name fits
+	Env   int       `json:"env,omitempty"` // environment of all cached runs: 0 XDG_CACHE_HOME, 1 HOME only, 2 no usable cache directory, 3 relative cache path, other locale and time zone, 4 a cache directory so deep that no entry file name fits, 5 a usable cache directory but TMPDIR names no directory
 	Steps []c14Step `json:"steps"`
 }
 
@@ -235,7 +235,7 @@ func c14Gen(t *rapid.T) c14Case {
 	vars := c14Variants[cmd]
 	in := rapid.SampledFrom(c14Inputs).Draw(t, "in")
 	var c c14Case
-	c.Env = rapid.SampledFrom([]int{0, 0, 0, 1, 2, 3, 4}).Draw(t, "env")
+	c.Env = rapid.SampledFrom([]int{0, 0, 0, 1, 2, 3, 4, 5}).Draw(t, "env")
 	for i := 0; i < n; i++ {
 		// near-collisions: mostly the same command and input, one thing changed
 		switch rapid.IntRange(0, 9).Draw(t, "drift") {
@@ -332,7 +332,7 @@ func TestC14(t *testing.T) {
 			}
 			// the same repeat under other environments (cache directory from HOME alone, none usable, relative path
 			// with another locale and time zone)
-			for envMode := 1; envMode <= 4; envMode++ {
+			for envMode := 1; envMode <= 5; envMode++ {
 				if !e.try(c14Case{Env: envMode, Steps: []c14Step{sa("small", false), sa("small", false), sa("two", true), sa("small", false)}}) {
 					return
 				}
